@@ -108,8 +108,78 @@ func factsOfMode(fn *ssa.Function, conv bool) *FuncFacts {
 	ff.Extra = make([][]Fact, len(ff.Edges))
 	for i := 0; i < n; i++ {
 		ff.Extra[i] = edgeHelperFacts(ff.Edges[i], conv)
+		ff.Extra[i] = append(ff.Extra[i], searchFacts(ff, ff.Facts[i])...)
 	}
 	return ff
+}
+
+// searchFacts: on an edge where the result of slices.IndexFunc(xs, pred) / slices.Index(xs, v)
+// is known to be a position (>= 0, or != -1), the element at that position satisfies the
+// predicate (equals v): the library function's contract, read as a fact about xs[result].
+func searchFacts(ff *FuncFacts, f Fact) []Fact {
+	if !f.IsCmp {
+		return nil
+	}
+	var hit *Term
+	m := Matcher{"search result", func(t *Term) bool {
+		if t.Op == "call" && t.Call != nil && (t.Sym == "slices.IndexFunc" || strings.HasPrefix(t.Sym, "slices.IndexFunc[") || t.Sym == "slices.Index" || strings.HasPrefix(t.Sym, "slices.Index[")) {
+			hit = t
+			return true
+		}
+		return false
+	}}
+	if !f.Entails(CmpSpec{A: m, NoB: true, Rel: GE, D: 0}) && !f.Entails(CmpSpec{A: m, NoB: true, Rel: NE, D: -1}) {
+		return nil
+	}
+	call, ok := hit.Call.(*ssa.Call)
+	if !ok || call.Parent() != ff.Fn || len(call.Common().Args) != 2 {
+		return nil
+	}
+	elem := &Term{Op: "index", Args: []*Term{ff.tb.of(call.Common().Args[0], 1), ff.tb.of(call, 1)}}
+	if strings.HasPrefix(hit.Sym, "slices.Index[") || hit.Sym == "slices.Index" {
+		return []Fact{{IsCmp: true, Op: token.EQL, L: elem, R: ff.tb.of(call.Common().Args[1], 1)}}
+	}
+	mc, ok := call.Common().Args[1].(*ssa.MakeClosure)
+	if !ok {
+		return nil
+	}
+	g, _ := mc.Fn.(*ssa.Function)
+	if g == nil || len(g.Params) != 1 {
+		return nil
+	}
+	var ret *ssa.Return
+	for _, b := range g.Blocks {
+		if r, ok := b.Instrs[len(b.Instrs)-1].(*ssa.Return); ok {
+			if ret != nil {
+				return nil
+			}
+			ret = r
+		}
+	}
+	if ret == nil || len(ret.Results) != 1 {
+		return nil
+	}
+	// the predicate's result, written with the found element for its parameter and the
+	// creator's values for what it captured
+	tb := newTBMode(ff.conv)
+	tb.memo[g.Params[0]] = elem
+	for i, fv := range g.FreeVars {
+		if i >= len(mc.Bindings) {
+			break
+		}
+		if al, isCell := mc.Bindings[i].(*ssa.Alloc); isCell {
+			if sv := uniqueStore(al); sv != nil {
+				for _, r := range *fv.Referrers() {
+					if ld, ok := r.(*ssa.UnOp); ok && ld.Op == token.MUL {
+						tb.memo[ld] = ff.tb.of(sv, 1)
+					}
+				}
+			}
+			continue
+		}
+		tb.memo[fv] = ff.tb.of(mc.Bindings[i], 1)
+	}
+	return []Fact{factOf(tb.of(ret.Results[0], 1), true)}
 }
 
 func newTBMode(conv bool) *termBuilder {
